@@ -56,7 +56,11 @@ class C12(CheckBase):
         cmdk = rng.weighted([(8, 'extract-files'), (3, 'extract-unused'), (4, 'read')])
         dest = rng.choice(['out', 'out/', './out', 'out/.', 'ABS/out', 'out//', 'sub/../out', 'ABS/out/',
                            'lnk/../out2', 'lnk/../out2/', 'ABS/lnk/../out2', 'lnkout', 'lnkout/', 'sub/deep/../../out'])
-        if rng.chance(0.08):
+        if cmdk == 'extract-unused' and rng.chance(0.08):
+            # a destination longer than any path may be (17 components of 250 characters): nothing can be created there,
+            # and nothing may be created anywhere else instead (its ancestors exist)
+            dest = 'LONGPATH'
+        elif rng.chance(0.08):
             # legal directory names that look like something else: ending in a backslash, a space, a dot; starting with
             # a dash; containing a newline
             dest = rng.choice(['bs\\', 'bs\\/', 'sp ', ' lead', 'dot.', '-dash', 'a\nb', 'q"q', "o'o"])
@@ -99,6 +103,20 @@ class C12(CheckBase):
             del files['ESC']
         sb.populate(files)
         dest = case['cmd'][-1] if case['cmd'][0] in ('extract-files', 'extract-unused') else ''
+        if dest == 'LONGPATH':
+            # created component by component (the whole path is longer than a system call accepts)
+            fd = os.open(root, os.O_RDONLY | os.O_DIRECTORY)
+            try:
+                for _ in range(17):
+                    try:
+                        os.mkdir('L' * 250, dir_fd=fd)
+                    except FileExistsError:
+                        pass
+                    nfd = os.open('L' * 250, os.O_RDONLY | os.O_DIRECTORY, dir_fd=fd)
+                    os.close(fd)
+                    fd = nfd
+            finally:
+                os.close(fd)
         if dest and not dest.startswith(('/', 'ABS')) and dest.rstrip('/') not in files and '/' not in dest.rstrip('/') and '%' not in dest:
             sb.populate({dest.rstrip('/'): None})
         if '%' in dest:
@@ -145,7 +163,7 @@ class C12(CheckBase):
             self._dest_real = os.path.relpath(os.path.realpath(os.path.join(sb.root, d0)), os.path.realpath(sb.root))
         self.arrange(case, sb, s)
         before = sb.snapshot()
-        cmd = [a.replace('ABS', sb.root) for a in case['cmd']]
+        cmd = [a.replace('ABS', sb.root) if a != 'LONGPATH' else ('L' * 250 + '/') * 17 for a in case['cmd']]
         argv = ['dfs', '--file', name] + (['--file', 'other.ssd'] if case['second'] else []) + case['globals'] + cmd
         faults = []
         if case['fault'] == 'wfail':
